@@ -109,7 +109,8 @@ MAXK = 2                   # max keyword-only
 FULL = tier(False, True)
 ANN = ["", ": int", ": 'List[int]'", ": \"Foo\"", ": None", ": 'None'", ": List[None]", ": List['Foo']", ": Annotated['Foo', 'meta']", ": Literal['Foo']", ": ('Foo | int') * 2"]
 NANN = len(ANN) - 1
-DEFAULTS = ["100", "True", "1.0", "None", "'s'", "0.0", "False", "-1", "1", "0", "b'1'", "''", "2*(7//2)", "1+(8-3)", "(1, 2)", "[1, {'a': ()}]", "x.y[0](z)", "10-(4-3)"]
+# string defaults with every character _str_escape / _bytes_escape rewrites (NUL, backslash, quote, tab, newline): they must read back as the same value
+DEFAULTS = ["100", "True", "'a\\x00b\\\\c'", "'it\\'s\\t\\n'", "1.0", "None", "b'\\x00\\\\'", "'s'", "0.0", "False", "-1", "1", "0", "b'1'", "''", "2*(7//2)", "1+(8-3)", "(1, 2)", "[1, {'a': ()}]", "x.y[0](z)", "10-(4-3)"]
 RET = ["", " -> None", " -> int", " -> 'Foo'", " -> \"None\""]
 
 
@@ -256,7 +257,7 @@ def _parts_sig():
     parts=_parts_sig, timeout=(240, 2400), cls="E", tracing="concrete-after-choice", twin="first",
     code=["pydoctor.astbuilder.ModuleVistor._handleFunctionDef", "._annotations_from_function", "pydoctor.astutils.unstring_annotation",
           "pydoctor.astbuilder._ValueFormatter/_AnnotationValueFormatter", "pydoctor.templatewriter.pages.format_signature", "inspect.Signature.__str__"],
-    bounds={"quick": "<=2 positional-only, <=2 positional, every count of defaults, *args or not, <=2 keyword-only with every default mask, **kwargs or not, 3 annotation placements (none / all / alternate; forms: name, quoted subscript, double-quoted name, None, quoted None, subscript with None, quoted name inside a subscript, Annotated with a quoted type and string metadata, Literal with a string, a quoted union as operand of a tighter-binding operator), 5 return forms, name or constant defaults (chosen by the layout), plain function, and overload set with all parameters annotated (decorator spelled overload / an alias of it / typing.overload / t.overload)",
+    bounds={"quick": "<=2 positional-only, <=2 positional, every count of defaults, *args or not, <=2 keyword-only with every default mask, **kwargs or not, 3 annotation placements (none / all / alternate; forms: name, quoted subscript, double-quoted name, None, quoted None, subscript with None, quoted name inside a subscript, Annotated with a quoted type and string metadata, Literal with a string, a quoted union as operand of a tighter-binding operator), 5 return forms, name or constant defaults (chosen by the layout; the constants include strings and bytes with NUL, backslash, quote, tab and newline), plain function, and overload set with all parameters annotated (decorator spelled overload / an alias of it / typing.overload / t.overload)",
             "thorough": "<=3 positional-only and <=3 positional, full product incl. name/constant defaults and overload sets for every annotation placement"},
     outside="default/annotation expressions beyond constants, names and one subscript (C15); signatures from introspection of C modules",
 )
